@@ -496,8 +496,9 @@ func zeroOfSort(s string) string {
 
 // namedPathShort gives "strings.Builder", "metrics.Metric" for named types (pointer stripped).
 func namedPathShort(t types.Type) string {
+	t = types.Unalias(t) // os.FileInfo is an alias of fs.FileInfo
 	if p, ok := t.(*types.Pointer); ok {
-		t = p.Elem()
+		t = types.Unalias(p.Elem())
 	}
 	if n, ok := t.(*types.Named); ok {
 		o := n.Obj()
